@@ -212,6 +212,10 @@ func GenNote(t *rapid.T, o GenOpt) *Note {
 		CloseURL: optStr(t, "clurl"), ReopenURL: optStr(t, "rurl"), DateCreated: optTime(t, "created", true), DateClosed: optTime(t, "closedAt", true),
 		Status: rapid.SampledFrom([]string{"", "open", "closed"}).Draw(t, "status")}
 	k := rapid.IntRange(0, 3).Draw(t, "ncomments")
+	if rapid.IntRange(0, 5).Draw(t, "sparse") == 0 {
+		// a remark-style note: position and texts only, no id, status, dates or comments
+		n.ID, n.Status, n.DateCreated, n.DateClosed, k = 0, "", 0, 0, 0
+	}
 	for i := 0; i < k; i++ {
 		n.Comments = append(n.Comments, NoteComment{Date: optTime(t, "cdate", true), UID: int64(optInt(t, "cuid", 1<<30)), User: optStr(t, "cuser"), UserURL: optStr(t, "cuurl"),
 			Action: rapid.SampledFrom([]string{"", "opened", "commented", "closed"}).Draw(t, "action"), Text: optStr(t, "text"), HTML: optStr(t, "html")})
